@@ -127,6 +127,21 @@ try:
         real_traces = [x for outs in ex.map(real, targets) for x in outs]
         lprobs, lstats = flock.result()
     cov["lockstep_one_client_per_node"] = lstats
+    # a proposal that waits for its quorum (both followers frozen for 6.5 s) still means what it means on a standalone
+    # server: applied once, answered with its own result (the scenario is shared with C07)
+    import conc
+    sp = clusterscen.stalled_proposals(("stalled-proposals-6.5s", 6.5, 700), common.scratch("c14stall-"))
+    cov["stalled_proposals"] = dict(sp["stats"], inconclusive=sp["inconclusive"])
+    for sig, replay, what in sp["violations"]:
+        v.report(sig, replay, what=what)
+    if sp["path"] and not sp["inconclusive"]:
+        nonlin, _ = conc.validate_hist_split(sp["path"])
+        for n in nonlin[:3]:
+            hist = conc.history_of(n["path"], n["sub_h"])
+            v.report({"branch": "cluster.stalled-proposal", "kind": "not-the-standalone-meaning", "detail": ks.b2s(n["argv"][0]).lower()},
+                     {"history": hist, "failing": n},
+                     what="three writes handed to a leader whose followers were frozen for 6.5 s: no standalone execution order explains reply %s of %s" % (
+                         ks.show_reply(n["got"]), ks.show_argv(n["argv"])))
     for pr in lprobs or []:
         v.report({"branch": "cluster.own-reply", "kind": pr["kind"], "detail": ""}, pr,
                  what="one client per node in lock step (a standalone server answers every command with its own result): %s" % pr["detail"])
